@@ -281,7 +281,7 @@ func checkC01() int {
 			return nil
 		}
 		// duplication of processes that are poised at calls, forwards and cuts
-		o := gen.Opt{MaxSplit: 4, Pol: 2, Alias: 30, ExplicitSelf: 15, ExplicitProv: 15, Exec: 10, Print: 8, TopMax: 3, Fuel: 3, MultiProv: 60, Drop: 12, Split: 35, Tail: 30, TopCall: 50, Mixed: i%2 == 0, MainMode: []vast.Mode{vast.Rep, vast.Lin, vast.Mul, vast.Lin}[i%4]}
+		o := gen.Opt{MaxSplit: 4, Pol: 2, Alias: 30, ExplicitSelf: 45, ExplicitProv: 15, Exec: 10, Print: 8, TopMax: 3, Fuel: 3, MultiProv: 60, Drop: 12, Split: 35, Tail: 30, TopCall: 50, Mixed: i%2 == 0, MainMode: []vast.Mode{vast.Rep, vast.Lin, vast.Mul, vast.Lin}[i%4]}
 		return &o
 	})
 	cases = append(cases, closedCorpus(pool)...)
